@@ -8,6 +8,8 @@ the `i`-th scope; `FlagInv m` = every flag equals the live guards on its cell, a
 never an exclusive one next to a shared one, every guard sits on an existing cell.
 -/
 import MahfModel.Proofs.C02
+import MahfModel.Proofs.C02Ext
+import MahfModel.Proofs.C02Repair
 namespace MahfModel.Props.C02
 open MahfModel.Registry MahfModel.Borrow
 
@@ -97,6 +99,82 @@ theorem write_then_read (m : M) (h : FlagInv m) (gd : Guard) (hmem : gd ∈ m.gu
 theorem values_only_change_by_writes (m : M) (ops : List MOp) (hops : ∀ o ∈ ops, nonWriting o = true) :
     abs (mrun m ops).1.reg = abs m.reg :=
   nonWriting_run_abs m ops hops
+
+/-- "A panic only from the explicitly panicking accessors": no request a client can issue through `&State` other
+than `borrow`, `borrow_mut` and `get_value` is ever answered by a panic, in any state (acquiring at any `parent()`
+distance, releasing, reading and writing through guards, `try_get_value`, `set_value`, `contains`, `find`, …). -/
+theorem no_panic_from_fallible (m : M) (op : MOp) (hop : fallible op = true) :
+    ∀ o ∈ (mstep m op).2, isPanicOut o = false :=
+  no_panic_from_fallible' m op hop
+
+/-! ### Requests through `parent()` (the same type in another scope), at any distance `d` -/
+
+/-- `parent()^d . try_borrow(_mut)::<k>()`: granted iff the `d`-th parent exists, the type resolves from THERE
+(innermost scope at or above it) to a cell without a live exclusive guard (shared request) / without any live
+guard (exclusive request). Guards on the cells of the same type in scopes below the `d`-th parent, or above the
+resolved one, do not enter the condition. -/
+theorem grant_iff_parent (m : M) (h : FlagInv m) (d : Nat) (k : Key) :
+    (granted (mstep m (.parBor d k)).2 ↔
+      d < m.reg.length ∧ ∃ i, find (m.reg.drop d) k = some i ∧ exclOn m.guards (d + i) k = 0) ∧
+    (granted (mstep m (.parBorMut d k)).2 ↔
+      d < m.reg.length ∧ ∃ i, find (m.reg.drop d) k = some i ∧ exclOn m.guards (d + i) k = 0 ∧
+        sharedOn m.guards (d + i) k = 0) :=
+  grant_iff_parent' m h d k
+
+/-- … and a request through `parent()^d` that is not granted changes nothing and is answered "no such parent",
+`NotFound`, or the borrow-conflict error of its kind. -/
+theorem refused_never_granted_parent (m : M) (h : FlagInv m) (d : Nat) (k : Key) :
+    (¬ granted (mstep m (.parBor d k)).2 → (mstep m (.parBor d k)).1 = m ∧
+      (((mstep m (.parBor d k)).2 = [.noParent] ∧ ¬ d < m.reg.length) ∨
+       ((mstep m (.parBor d k)).2 = [.err .notFound] ∧ find (m.reg.drop d) k = none) ∨
+       ((mstep m (.parBor d k)).2 = [.err .conflictImm] ∧
+          ∃ i, find (m.reg.drop d) k = some i ∧ exclOn m.guards (d + i) k = 1))) ∧
+    (¬ granted (mstep m (.parBorMut d k)).2 → (mstep m (.parBorMut d k)).1 = m ∧
+      (((mstep m (.parBorMut d k)).2 = [.noParent] ∧ ¬ d < m.reg.length) ∨
+       ((mstep m (.parBorMut d k)).2 = [.err .notFound] ∧ find (m.reg.drop d) k = none) ∨
+       ((mstep m (.parBorMut d k)).2 = [.err .conflictMut] ∧
+          ∃ i, find (m.reg.drop d) k = some i ∧
+            0 < exclOn m.guards (d + i) k + sharedOn m.guards (d + i) k))) :=
+  refused_parent' m h d k
+
+/-! ### The value accessors next to ANY set of live guards -/
+
+/-- `try_get_value` / `get_value` / `set_value` issued while guards are alive, for a type that resolves to the
+cell `(i, k)` holding `c`: reading succeeds (value of that cell) iff no exclusive guard lives on that cell and
+is otherwise the conflict error (`try_get_value`) resp. a panic (`get_value`); `set_value` is refused with `None`
+— nothing written, no flag changed — iff any guard lives on the cell, and otherwise writes exactly that cell and
+returns the old value. Reads never change the state. -/
+theorem value_access_next_to_guards (m : M) (h : FlagInv m) (k : Key) (v : Nat) (i : Nat) (c : Cell)
+    (hf : find m.reg k = some i) (hc : cellAt m.reg i k = some c) :
+    mstep m (.sh (.tryGet k)) = (m, [if exclOn m.guards i k = 0 then .val c.val else .err .conflictImm]) ∧
+    mstep m (.sh (.get k)) = (m, [if exclOn m.guards i k = 0 then .val c.val else .panic]) ∧
+    (exclOn m.guards i k + sharedOn m.guards i k ≠ 0 → mstep m (.sh (.set k v)) = (m, [.none])) ∧
+    (exclOn m.guards i k + sharedOn m.guards i k = 0 →
+      mstep m (.sh (.set k v)) = ({ m with reg := writeAt m.reg i k (fun _ => v) }, [.val c.val])) :=
+  value_access' m h k v i c hf hc
+
+/-- … an absent type is `NotFound` / panic / `None`, and nothing is inserted. -/
+theorem value_access_absent (m : M) (k : Key) (v : Nat) (hf : find m.reg k = none) :
+    mstep m (.sh (.tryGet k)) = (m, [.err .notFound]) ∧ mstep m (.sh (.get k)) = (m, [.panic]) ∧
+    mstep m (.sh (.set k v)) = (m, [.none]) :=
+  value_access_absent' m k v hf
+
+/-- … and `parent()^d . try_get_value` is decided by the guards on the cell resolved from the `d`-th parent. -/
+theorem value_access_parent (m : M) (h : FlagInv m) (d : Nat) (k : Key) (i : Nat) (c : Cell)
+    (hd : d < m.reg.length) (hf : find (m.reg.drop d) k = some i) (hc : cellAt m.reg (d + i) k = some c) :
+    mstep m (.sh (.parGet d k)) =
+      (m, [if exclOn m.guards (d + i) k = 0 then .val c.val else .err .conflictImm]) :=
+  value_access_parent' m h d k i c hd hf hc
+
+/-- What is written through an exclusive guard is what `try_get_value` / `get_value` read later (after any
+acquisitions, releases, reads and probes), as soon as no exclusive guard is left on that cell. -/
+theorem write_then_value_read (m : M) (h : FlagInv m) (gd : Guard) (hmem : gd ∈ m.guards) (hex : gd.excl = true)
+    (v : Nat) (ops : List MOp) (hops : ∀ o ∈ ops, nonWriting o = true)
+    (hfind : find (mrun (mstep m (.wr gd.id v)).1 ops).1.reg gd.key = some gd.idx)
+    (hfree : exclOn (mrun (mstep m (.wr gd.id v)).1 ops).1.guards gd.idx gd.key = 0) :
+    (mstep (mrun (mstep m (.wr gd.id v)).1 ops).1 (.sh (.tryGet gd.key))).2 = [.val v] ∧
+    (mstep (mrun (mstep m (.wr gd.id v)).1 ops).1 (.sh (.get gd.key))).2 = [.val v] :=
+  write_then_value_read' m h gd hmem hex v ops hops hfind hfree
 
 /-- Multi-borrow, key lists of ANY length: succeeds iff no type repeats and every type is present. -/
 theorem multi_ok_iff (r : Reg) (ks : List Key) :
@@ -213,6 +291,54 @@ def samekeyWitness : List MOp :=
 
 theorem holding_samekey_violates : holdsOn samekeyWitness = false := by decide
 
+/-- The second recorded symptom of the same finding (class `err`): the body re-inserts the held type into the
+scope it was taken from and nests a `holding` of that type; the inner call removes the outer call's marker, the
+outer call ends with `NotFound` and its value is dropped. -/
+def samekeyWitnessErr : List MOp :=
+  [.ex (.op (.ins (.ty 0) 1)),
+   .ex (.hold (.ty 0) 1 true (.cons (.op (.ins (.ty 0) 9)) (.cons (.hold (.ty 0) 2 true .nil) .nil))), .locks]
+
+theorem holding_samekey_err_violates :
+    holdsOn samekeyWitnessErr = false ∧
+    -- the outer `holding` ends with `NotFound` …
+    (match (mrun M.init samekeyWitnessErr).2[3]? with | some (.err .notFound) => true | _ => false) = true ∧
+    -- … and its value (1 + 1) is dropped: what stays is the body's re-inserted value as the inner call left it
+    cellAt (mrun M.init samekeyWitnessErr).1.reg 0 (.ty 0) = some (fresh 11) := by
+  decide
+
+/-! ### PROPOSED REPAIR of `holding` (`Model/BorrowRepair.lean`; NOT what `/repo` does)
+
+Remember the level of the source scope counted from the root instead of leaving a per-type marker. For this
+variant the full statement holds: every body, including nested holdings of the same type. -/
+
+/-- The repaired `holding` (and everything around it: registry operations, `with_inner_state`, nested holdings of
+ANY type) is the abstract machine, for every program whose scopes are opened by `with_inner_state` only. -/
+theorem repaired_holding_refines (p : Prog) (r : Reg) (h : Inv r) (hf : Prog.flat p) :
+    (execProgFix r p).2 = (specExecProg (abs r) p).2 ∧ abs (execProgFix r p).1 = (specExecProg (abs r) p).1 ∧
+      Inv (execProgFix r p).1 ∧ (execProgFix r p).1.length = r.length := by
+  obtain ⟨a, b, c, d⟩ := execProgFix_refines p r h hf
+  exact ⟨b, c, a, d⟩
+
+/-- The full statement `holding_restores_all_bodies` (false of the code, see above) is true of the repair: for
+EVERY body — ok or err, nesting holdings of the same or of other types, inner scopes — the held type is back
+in the scope it was taken from with the value the body left in it, and every other cell is as the body left
+it. No marker exists. -/
+theorem repaired_holding_restores_all_bodies (r : Reg) (k : Key) (d : Nat) (ok : Bool) (body : Prog) (i : Nat)
+    (c : Cell) (hI : Inv r) (hf : find r k = some i) (hc : cellAt r i k = some c) (hb : Prog.flat body) :
+    (execStmtFix r (.hold k d ok body)).2 = (execProgFix (modifyAt r i (·.erase k)) body).2 ++ [resOut ok] ∧
+    cellAt (execStmtFix r (.hold k d ok body)).1 i k = some (fresh (c.val + d)) ∧
+    (∀ j q, ¬ (j = i ∧ q = k) →
+      cellAt (execStmtFix r (.hold k d ok body)).1 j q =
+        cellAt (execProgFix (modifyAt r i (·.erase k)) body).1 j q) :=
+  holdingFix_restores r k d ok body i c hI hf hc hb
+
+/-- On both recorded witnesses the repaired machine answers what the abstract machine answers. -/
+theorem repaired_holding_on_witnesses :
+    holdsOnFix samekeyWitness = true ∧ holdsOnFix samekeyWitnessErr = true ∧
+    cellAt (execStmtFix samekeyReg (.hold (.ty 0) 1 true samekeyBody)).1 0 (.ty 0) = some (fresh 4) ∧
+    cellAt (execStmtFix samekeyReg (.hold (.ty 0) 1 true samekeyBody)).1 1 (.ty 0) = some (fresh 3) := by
+  decide
+
 /-! Non-vacuity of the hypotheses. -/
 -- a reachable state with two live shared guards on one cell and an exclusive one on another
 example : (mrun M.init [.ex (.op (.ins (.ty 0) 1)), .ex (.op (.ins (.ty 1) 2)), .bor (.ty 0), .bor (.ty 0),
@@ -234,5 +360,18 @@ example : find (mrun M.init [.ex (.op (.ins (.ty 0) 1)), .ex (.op .push), .ex (.
     .borMut (.ty 1)]).1.reg (.ty 0) = some 1 := by decide
 example : nodupKeys [[(.ty 1, fresh 2), (.ty 0, fresh 4)], [(.ty 0, fresh 1)]] := by
   simp [nodupKeys, Scope.nodupKeys, Scope.keys]
+-- a request through `parent()`: the child shadows type 0, an exclusive guard lives on the CHILD's cell, the
+-- parent's cell of the same type is granted
+example : find ((mrun M.init [.ex (.op (.ins (.ty 0) 1)), .ex (.op .push), .ex (.op (.ins (.ty 0) 3)),
+    .borMut (.ty 0)]).1.reg.drop 1) (.ty 0) = some 0 := by decide
+example : ((mrun M.init [.ex (.op (.ins (.ty 0) 1)), .ex (.op .push), .ex (.op (.ins (.ty 0) 3)),
+    .borMut (.ty 0), .parBorMut 1 (.ty 0), .sh (.tryGet (.ty 0)), .sh (.parGet 1 (.ty 0))]).2.drop 3).map
+    (fun o => (o.toSexp nTypes).render) = ["(g 0)", "(g 1)", "(e conflict_imm)", "(e conflict_imm)"] := by decide
+-- a body that nests a holding of the SAME type is a flat program
+example : Prog.flat (.cons (.hold (.ty 0) 1 true (.cons (.op (.ins (.ty 0) 9))
+    (.cons (.hold (.ty 0) 2 false (.cons (.inner true .nil) .nil)) .nil))) .nil) := by
+  simp [Prog.flat, Stmt.flat, ROp.flat]
+example : fallible (.parBorMut 2 (.ty 0)) = true ∧ fallible (.sh (.set (.ty 0) 1)) = true ∧
+    fallible (.borP (.ty 0)) = false ∧ fallible (.sh (.get (.ty 0))) = false := ⟨rfl, rfl, rfl, rfl⟩
 
 end MahfModel.Props.C02
